@@ -19,6 +19,24 @@ var Configs = map[string]Config{
 	}},
 }
 
+func init() {
+	e := Configs["scalars"]
+	e.Name = "scalars-empty"
+	e.EmptyStrings = true
+	Configs["scalars-empty"] = e
+	Configs["kitchen"] = Config{Name: "kitchen", Props: []Prop{
+		{Name: "i", Type: models.IndexTypeInteger},
+		{Name: "f", Type: models.IndexTypeFloat},
+		{Name: "s", Type: models.IndexTypeString, CS: false},
+		{Name: "a", Type: models.IndexTypeStringArray, CS: true},
+		{Name: "t", Type: models.IndexTypeText},
+		{Name: "v", Type: models.IndexTypeVectorVamana, Metric: models.DistanceEuclidean, Dim: 3, SearchSize: 75, DegreeBound: 64, Alpha: 1.2},
+		{Name: "fl", Type: models.IndexTypeVectorFlat, Metric: models.DistanceEuclidean, Dim: 3},
+		{Name: "n.i", Type: models.IndexTypeInteger},
+		{Name: "n.t", Type: models.IndexTypeText},
+	}}
+}
+
 // WithCache returns a copy of the configuration with another cache size.
 func (c Config) WithCache(size int64, tag string) Config {
 	c.CacheSize = size
